@@ -83,6 +83,10 @@ impl DealerSocketOutgoingProcessor {
           zmtp_frames_for_logical_message.len()
         );
 
+        // A blocking send that times out or loses its peer hands back an EMPTY batch (the frames
+        // went down with the abandoned send); keep a handle on the message so that it is the
+        // message, not the empty batch, that goes back to the front of the queue.
+        let message_backup = zmtp_frames_for_logical_message.clone();
         match self.outgoing_orchestrator.route_message(zmtp_frames_for_logical_message, false).await {
           Ok(()) => {}
           Err((returned, _)) => {
@@ -90,6 +94,7 @@ impl DealerSocketOutgoingProcessor {
               "[DealerProc {}] route_message failed (all peers full or no peers). Re-queuing.",
               self.core_handle
             );
+            let returned = if returned.is_empty() { message_backup } else { returned };
             self.pending_queue.lock().await.push_front(returned);
             self.queue_activity_notifier.notify_one();
           }
